@@ -102,6 +102,20 @@ def main():
             return Handle(fd) if writing and inside else fd
         import builtins
         builtins.open = fake_open      # every module that writes through open() is covered
+    if spec.get("stale_part"):
+        # a leftover of an earlier run sits at '<metafile>.part': a regular file, a symbolic link
+        # to the metafile itself, or a link to some other file
+        part = spec["metafile"] + ".part"
+        if spec["stale_part"] == "file":
+            with open(part, "wb") as fd:
+                fd.write(b"d4:infod4:name5:stalee")
+        elif spec["stale_part"] == "link-to-metafile":
+            os.symlink(os.path.basename(spec["metafile"]), part)
+        else:
+            other = spec["metafile"] + ".other"
+            with open(other, "wb") as fd:
+                fd.write(b"an unrelated file that must survive")
+            os.symlink(os.path.basename(other), part)
     raised = None
     with effects.traced(on_event=on_event) as tr:
         try:
